@@ -15,7 +15,7 @@ from wire import to_wire, canon, exc_class
 from props.common import scale, depth_of, schema_tags
 
 THEOREMS = ["c13_eq_spec", "c13_eq_spec_nested", "c13_spec_stable", "c13_cosmetic_type", "c13_cosmetic_field",
-            "c13_cosmetic_name", "c13_inherited_namespace"]
+            "c13_cosmetic_name", "c13_inherited_namespace", "c13_fixed_point", "c13_idempotent"]
 TARGETS = ["Properties.TablesSchema", "Properties.C13"]
 
 
@@ -125,6 +125,15 @@ def run(tier, seed):
         if model[k].get("ok", {}).get("canon") != text:
             case["impl"], case["model"] = text, model[k]
             run.fail(case, "correspondence: model canonical form differs", kind="correspondence")
+            continue
+        # the JSON value the text denotes is the model's Canon.toRaw (the value theorem `c13_fixed_point` speaks about)
+        try:
+            denoted = canon(to_wire(json.loads(text)))
+        except Exception:
+            denoted = None
+        if denoted is not None and "toraw" in model[k] and canon(model[k]["toraw"]) != denoted:
+            case["impl_value"], case["model_value"] = denoted, canon(model[k]["toraw"])
+            run.fail(case, "correspondence: the JSON value of the canonical text differs from the model's Canon.toRaw", kind="correspondence")
             continue
         # fixed point: the canonical form is itself a schema with the same canonical form
         try:
